@@ -96,6 +96,44 @@ theorem generated_code_computes (Δ : Defs) (n : String) (g : Nat) :
   ⟨fun _ _ hl hty => ⟨genJson_struct_eval hl hty, genString_struct_eval hl hty⟩,
    fun _ _ _ _ _ hl hv hty => ⟨genJson_enum_eval hl hv hty, genString_enum_eval hl hv hty⟩⟩
 
+/-- **which traits an item derives depends only on the set of its derive attributes**: a trait is
+    derived iff some attribute is a derive that lists it, so stacking, splitting, repeating and
+    reordering attributes, and putting other attributes (or derives of unknown targets only)
+    before, between or after them changes nothing (`derivesTrait` mirrors `find_derive_attr` /
+    `parse_derive_targets`; the check compares it with what `derive::expand` appends) -/
+theorem derive_attrs_union (as bs : List (List Char)) (tr : List Char) :
+    derivesTrait (as ++ bs) tr = (derivesTrait as tr || derivesTrait bs tr) := by
+  simp [derivesTrait, List.any_append]
+
+theorem derive_attrs_perm (as bs : List (List Char)) (tr : List Char) (h : as.Perm bs) :
+    derivesTrait as tr = derivesTrait bs tr := by
+  induction h with
+  | nil => rfl
+  | cons x _ ih => simp only [derivesTrait, List.any_cons] at ih ⊢; rw [ih]
+  | swap x y l =>
+    simp only [derivesTrait, List.any_cons]
+    cases listsTrait y tr <;> cases listsTrait x tr <;> rfl
+  | trans _ _ ih1 ih2 => exact ih1.trans ih2
+
+theorem derive_attrs_skip (a : List Char) (as : List (List Char)) (tr : List Char)
+    (h : parseDeriveTargets a = none ∨ ∃ ts, parseDeriveTargets a = some ts ∧ ts.contains tr = false) :
+    derivesTrait (a :: as) tr = derivesTrait as tr := by
+  have hl : listsTrait a tr = false := by
+    rcases h with h | ⟨ts, h, hc⟩
+    · simp [listsTrait, h]
+    · simp only [listsTrait, h]; exact hc
+  simp only [derivesTrait, List.any_cons, hl, Bool.false_or]
+
+theorem derive_attrs_dup (a : List Char) (as : List (List Char)) (tr : List Char) :
+    derivesTrait (a :: a :: as) tr = derivesTrait (a :: as) tr := by
+  simp only [derivesTrait, List.any_cons]
+  cases listsTrait a tr <;> rfl
+
+example : derivesTrait ["#[derive(ToString)]".toList, "#[foo]".toList, "#[ derive ( Debug , ToJson, ) ]".toList] "ToJson".toList = true ∧
+    derivesTrait ["#[derive(ToString)]".toList] "ToJson".toList = false ∧
+    derivesTrait ["#![derive(ToJson)]".toList, "#[derive()]".toList, "#[derive]".toList, "#[derived(ToJson)]".toList,
+      "#[derive(ToJson)(ToString)]".toList, "#[derive(tojson)]".toList] "ToJson".toList = false := by decide
+
 /-! ### the defects the proofs point at, as examples -/
 
 /-- before the fix a struct field was bound to a local of its own name: a field spelled like a
